@@ -41,6 +41,7 @@ func c11(c *Ctx) {
 	// entries included), under the current term (round-7 seed C11-N)
 	c20CreateStamp(c, "R8/C20.R4")
 	c15R4(c, "R9/C15.R4")
+	sSendsNewestSnapshot(c, "R9/C20.R10")
 }
 
 func sinkTracks(c *Ctx, createPrefix string) []engine.Track {
